@@ -21,7 +21,14 @@ import (
 
 func init() {
 	zerolog.SetGlobalLevel(zerolog.Disabled)
+	svc.Tick = wire.Tick
 }
+
+// Recent lists the beds created since the last ResetRecent (used by the wire-protocol monitor,
+// which looks at the taps of whatever workload just ran).
+var Recent []*Bed
+
+func ResetRecent() { Recent = nil }
 
 // ------------------------------------------------------------------ hooks
 
@@ -116,6 +123,7 @@ type Bed struct {
 	Ctx    context.Context
 	Cancel context.CancelFunc
 
+	CloseSeq  uint64 // logical time of Close (0 = still open)
 	mu        sync.Mutex
 	serveErrs []error
 	serves    int
@@ -136,6 +144,7 @@ func New(o Opts) *Bed {
 	}
 	goat.VerifResetTracking()
 	b := &Bed{O: o, Impl: svc.NewImpl()}
+	Recent = append(Recent, b)
 	b.Ctx, b.Cancel = context.WithCancel(context.Background())
 	b.Srv = goat.NewServer(o.SrvName, o.SrvOpts...)
 	b.Srv.RegisterService(&svc.Desc, b.Impl)
@@ -205,6 +214,11 @@ func (b *Bed) ServeState() (started, done int, errs []error) {
 
 // Close tears everything down: fails all links and cancels every context.
 func (b *Bed) Close() {
+	b.mu.Lock()
+	if b.CloseSeq == 0 {
+		b.CloseSeq = wire.Tick()
+	}
+	b.mu.Unlock()
 	b.Cancel()
 	b.Srv.Stop()
 	for _, l := range b.Links {
